@@ -119,7 +119,7 @@ DirDom(ctx, e, comp) ==
   /\ (c = 109 => ctx.tree[e.eff].mode >= 64)
   /\ (comp.width > 0 => \A i \in DOMAIN Value(ctx, e, c) : Value(ctx, e, c)[i] < 128)
 
-Blanks(n) == [k \in 1..n |-> 32]        \* (<<>> for n <= 0; columns may be hundreds of thousands wide)
+Blanks(n) == IF n <= 0 THEN <<>> ELSE [k \in 1..n |-> 32]        \* (not recursive: columns may be hundreds of thousands wide)
 Pad(v, width, left) == IF left THEN v \o Blanks(width - Len(v)) ELSE Blanks(width - Len(v)) \o v
 
 RenderComp(ctx, e, comp) ==
